@@ -681,6 +681,16 @@ def symlist_eq(it, a, b, excluded=()):
 
 
 # =========================================================================================== proto message equality, per field
+TIME_MESSAGES = {'google.protobuf.Timestamp', 'google.protobuf.Duration'}
+TIME_TOLERANCE = [True]     # Timestamp/Duration fields are compared as times, to the microsecond (see ASSUMPTIONS of C09)
+
+
+def time_value(schema, t):
+    """seconds + nanos / 10^9 of a Timestamp/Duration term (exact real)"""
+    sec, ns = pm.accessor(schema, 'seconds')(t), pm.accessor(schema, 'nanos')(t)
+    return z3.ToReal(sec) + z3.ToReal(ns) / z3.RealVal(10 ** 9)
+
+
 def term_eq_fields(schema, ta, tb, prefix='', guard=None):
     """[(dotted field path, formula)]: field-wise equality of two packed messages of `schema` (proto equality:
     scalar fields equal, presence equal, repeated fields same length and same elements).  Fine-grained: one clause per
@@ -728,6 +738,11 @@ def term_eq_fields(schema, ta, tb, prefix='', guard=None):
                 ha, hb = acc('has__' + f.name, ta), acc('has__' + f.name, tb)
                 out.append((path + '#has', g(ha == hb)))
                 g2 = ha if guard is None else z3.And(guard, ha)
+            if sub.fq in TIME_MESSAGES and TIME_TOLERANCE[0]:
+                d = time_value(sub, acc(f.name, ta)) - time_value(sub, acc(f.name, tb))
+                c = z3.And(d < z3.RealVal('1/1000000'), -d < z3.RealVal('1/1000000'))
+                out.append((path, z3.Implies(g2, c)))
+                continue
             out += term_eq_fields(sub, acc(f.name, ta), acc(f.name, tb), path + '.', g2)
         else:
             c = acc(f.name, ta) == acc(f.name, tb)
@@ -1049,7 +1064,11 @@ def _dt_fromtimestamp(it, args, kw):
         raise Unsupported('datetime.fromtimestamp(%r)' % (t,))
     if not it.truth(xreal.is_fin(t)):
         raise PyRaise(it.make_exc('ValueError', ['cannot convert float NaN/inf to a timestamp']))
-    return DT(round_us(xreal.r(t)))
+    # fromtimestamp rounds to the nearest microsecond: the result is within half a microsecond of the argument
+    r = it.run.fresh('dt_us', z3.RealSort())
+    d = r - z3.simplify(xreal.r(t))
+    it.run.assume(z3.And(d <= z3.RealVal('1/2000000'), -d <= z3.RealVal('1/2000000')))
+    return DT(r)
 
 
 E.EXTERNAL['datetime.datetime.timestamp'] = Builtin('datetime.timestamp', _dt_timestamp)
@@ -1093,7 +1112,7 @@ _prev_spec_eq = spec_eq
 def spec_eq(it, a, b, excluded=()):     # noqa: F811  (datetimes: same instant)
     if isinstance(a, DT) or isinstance(b, DT):
         if isinstance(a, DT) and isinstance(b, DT):
-            return a.ts == b.ts
+            return dt_close(a, b)       # "times are preserved to the microsecond"
         return False
     return _prev_spec_eq(it, a, b, excluded)
 
@@ -1251,7 +1270,7 @@ class AutoMap:
         self.out, self.msg, self.field, self.local_codec = out, msg, field, local_codec
 
     def install(self):
-        E.LOOPS[(self.mod, self.qual, self.ordinal)] = E.LoopSpec(self.invariant)
+        E.LOOPS[(self.mod, self.qual, self.ordinal)] = contract(self.invariant)
 
     def _out(self, env):
         if self.msg is not None:
@@ -1294,6 +1313,8 @@ class AutoMap:
                 ctx.entry_vals[self.out] = CodecList.empty(self.local_codec)
             ctx.summary = self.summarise(it, fr, ctx)
         view, cases, terms = ctx.summary
+        if ctx.phase == 'head' and self.msg is not None:
+            reshape_havoced(fr.env[self.msg], ctx.entry_vals[self.msg], {self.field})
         out, out0 = self._out(fr.env), self._out(ctx.entry_vals)
         i = ctx.i
         j = z3.Int('j!am')
@@ -1312,7 +1333,7 @@ class AutoMap:
         cl += [
             ('len', out.n == out0.n + i),
             ('prefix', z3.ForAll([j], z3.Implies(z3.And(j >= 0, j < out0.n), out.arr[j] == out0.arr[j]))),
-            ('elems', z3.ForAll([j], z3.Implies(z3.And(j >= 0, j < i), out.arr[out0.n + j] == F(j)))),
+            ('elems', z3.ForAll([j], z3.Implies(z3.And(j >= 0, j < i), out.arr[z3.simplify(out0.n + j)] == F(j)))),
         ]
         return cl
 
@@ -1322,5 +1343,141 @@ def frame_only(msg, changed):
     def inv(it, fr, ctx):
         if msg is None:
             return []
+        if ctx.phase == 'head':
+            reshape_havoced(fr.env[msg], ctx.entry_vals[msg], set(changed))
         return msg_frame(fr.env[msg], ctx.entry_vals[msg], set(changed))
+    return contract(inv)
+
+
+# =========================================================================================== small terms for havoced messages
+def _smart_acc(self, zname):
+    """accessor applied to a constructor application: the argument itself (semantically identical, keeps terms small
+    and lets python-side code see concrete field values)"""
+    pm.msg_sort(self.schema)
+    t = self.base
+    layout = pm.msg_layout(self.schema)
+    if layout is not None and z3.is_app(t) and t.num_args() == len(layout) and t.decl().eq(pm._MK[self.schema.fq]):
+        for k, (zn, _, _, _) in enumerate(layout):
+            if zn == zname:
+                a = t.arg(k)
+                if z3.is_int_value(a):
+                    return a.as_long()
+                if z3.is_true(a):
+                    return True
+                if z3.is_false(a):
+                    return False
+                return a
+    return pm._ACC[self.schema.fq][zname](t)
+
+
+pm.Msg._acc = _smart_acc
+
+
+def reshape_havoced(cur, entry, changed):
+    """after the loop rule has havoced the whole message `cur` (fresh base): give every top-level field outside `changed`
+    its loop-entry value again, python-side.  This *is* the frame clause of the invariant (which stays a checked
+    obligation at init/preserve); stating it structurally keeps field reads concrete."""
+    schema = cur.schema
+    reg = pm.registry()
+    for fname in schema.order:
+        f = schema.fields[fname]
+        owner_names = {fname} | ({f.oneof} if f.oneof else set())
+        if owner_names & set(changed):
+            continue
+        if f.repeated:
+            src = entry.get(fname)
+            cur.f[fname] = SymList(src.n, src.arr, src.elem, owner=(cur, fname))
+        elif f.kind == 'message':
+            sub = reg.msgs[f.type_fq]
+            child = Msg(sub, base=entry.get(fname).pack())
+            child.parent = (cur, fname)
+            cur.f[fname] = child
+            if not f.oneof:
+                cur.has[fname] = entry.get_has(fname)
+        else:
+            cur.f[fname] = entry.get(fname)
+            if f.optional and not f.oneof:
+                cur.has[fname] = entry.get_has(fname)
+    for oname in schema.oneofs:
+        if not (({oname} | set(schema.oneofs[oname])) & set(changed)):
+            cur.case[oname] = entry.get_case(oname)
+
+
+# =========================================================================================== loop modes, loop units, poison
+# MODE['loops']:
+#   'normal'   the engine's invariant rule as is: init obligation, arbitrary iteration (preserve obligation), exit path
+#   'summary'  main runs of a pair with many variants: init obligation + `requires` obligations, then only the exit path
+#              (invariant and i == n assumed); the preservation proof is done once, in the loop's *unit*
+#   'unit'     the loop alone, from an arbitrary pre-state (`requires` assumed): preservation for every context
+MODE = {'loops': 'normal'}
+
+
+class Poison:
+    """a value the loop units must not look at (the fields of the converted object that no loop may depend on): any use
+    -- comparison, truth value, attribute access, conversion -- is reported as unsupported, never silently evaluated"""
+
+    def __init__(self, what):
+        self.what = what
+
+    def __repr__(self):
+        return '<poison %s>' % self.what
+
+
+_prev_compare = M.compare
+
+
+def _compare(it, op, l, r):
+    if isinstance(l, Poison) or isinstance(r, Poison):
+        raise Unsupported('a loop unit looked at %r (the loop depends on a field its unit treats as arbitrary)' % ((l if isinstance(l, Poison) else r),))
+    return _prev_compare(it, op, l, r)
+
+
+M.compare = _compare
+
+_prev_truth4 = M.truth_hook
+
+
+def _truth4(it, v):
+    if isinstance(v, Poison):
+        raise Unsupported('a loop unit took the truth value of %r' % (v,))
+    return _prev_truth4(it, v)
+
+
+M.truth_hook = _truth4
+
+
+def _poison_getattr(it, v, a):
+    if isinstance(v, Poison):
+        raise Unsupported('a loop unit read attribute %s of %r' % (a, v))
+    return M.MISSING
+
+
+_chain('value_getattr_hook', _poison_getattr)
+
+
+def contract(invariant, requires=None, lemmas=None):
+    """LoopSpec from  invariant(it, fr, ctx) -> clauses,  requires(it, fr, ctx) -> clauses evaluated at loop entry
+    (main runs: obligations; unit: assumptions)  and  lemmas(it, fr, ctx, clauses) -> instance facts at the head."""
+    def inv(it, fr, ctx):
+        run = it.run
+        mode = MODE['loops']
+        cl = invariant(it, fr, ctx)
+        if ctx.phase == 'init' and requires is not None:
+            for nm, f in requires(it, fr, ctx):
+                if mode == 'unit':
+                    (run.axiom if E._has_quantifier(f) else run.assume)(f)
+                else:
+                    run.oblige('requires.%s' % nm, f)
+                    (run.axiom if E._has_quantifier(f) else run.assume)(f)      # cut: proved here, used below
+        if ctx.phase == 'head':
+            if mode == 'summary':
+                if ctx.iter is None:
+                    raise Unsupported('summary mode for a while loop')
+                run.assume(ctx.i == ctx.iter.n)
+            elif lemmas is not None:
+                invf = z3.And(*[c for _, c in cl]) if cl else z3.BoolVal(True)
+                for nm, fact in lemmas(it, fr, ctx):
+                    run.oblige('lemma.%s' % nm, z3.Implies(invf, fact))
+                    run.assume(fact)
+        return cl
     return E.LoopSpec(inv)
